@@ -111,10 +111,19 @@ def p_c18(facts, rep, tier):
         "diverging calls) in the functions reachable inside nomt_core from the 11 verifier entry points has a disposition: guarded "
         "(machine-checked: dominated by the pass edge of a branch whose other edge returns the named error), invariant (safe under an "
         "invariant of a private-field type whose constructors / field stores are enumerated and checked), or reviewed (frozen reason). "
-        "Any new or edited site is a violation. Hasher implementations are opaque and assumed total. Termination is not decided; the "
-        "adequacy of guards and reviewed reasons rests on reading."
+        "Any new or edited site is a violation. Hasher implementations are opaque and assumed total. Termination (structure): every loop of those functions is "
+        "driven by next() on a loop-invariant iterator of finite type whose None arm leaves the loop, or is a listed loop with a frozen argument (T1); "
+        "the only recursive cycle (verify_range) passes a strictly larger start_depth on each call under a dominating error-returning bound (T2); "
+        "no Iterator method is driven on an iterator of infinite type (T3). The adequacy of guards and reviewed reasons rests on reading."
     )
     reach, inv, counts = panicfree.run(facts, rep)
+    import termination
+
+    n_loops, n_iter, n_rec, n_it = termination.run(facts, rep)
+    rep.floor("T1 loops in reachable functions", n_loops, 12)
+    rep.floor("T1 iterator-driven loops (machine-checked)", n_iter, 9)
+    rep.floor("T2 recursion obligations", n_rec, 5)
+    rep.floor("T3 Iterator method calls inspected", n_it, 20)
     rep.floor("verifier entry points", len(panicfree.ENTRY), 11)
     rep.floor("reachable functions", len(reach), 60)
     rep.floor("panic sites", len(inv), 95)
@@ -122,7 +131,7 @@ def p_c18(facts, rep, tier):
         "H: NodeHasher implementations are total and collision resistant (two reviewed sites rest on domain separation of node kinds)",
         "overflow assertions are live in shipped builds (the workspace sets debug-assertions = true in release)",
         "reviewed sites rest on the written reason in rules/panic_sites.py; they are frozen by key (function, kind, expression)",
-        "termination (loops, the verify_range recursion) is not decided",
+        "std iterator adapters and collection methods terminate on finite iterators; the reviewed loops rest on the reasons in rules/termination.py",
     )
     rep.trust("rustc MIR (nightly, mir-opt-level=0)", "rules/panic_sites.py dispositions", "may-panic API table in rules/panicfree.py")
 
